@@ -141,6 +141,38 @@ def specVar {V : Type} (locals : List (Bind × V)) (imp : List ((String × Nat) 
     | none => (glob.reverse.find? (fun e => x = e.1)).map (·.2)
 
 
+/-! ### the run-time vector of the command line (`jaq/src/main.rs`: `binds`, `real_main`) -/
+
+/-- the variable options of the command line, each kind in command-line order, and the values
+    of `$ARGS` and `$ENV` -/
+structure CliVars (V : Type) where
+  arg : List (String × V)          -- `--arg k s`
+  rawfile : List (String × V)      -- `--rawfile k file`
+  slurpfile : List (String × V)    -- `--slurpfile k file`
+  argjson : List (String × V)      -- `--argjson k json`
+  args : V
+  env : V
+
+/-- `binds`: `arg.chain(rawfile).chain(slurpfile).chain(argjson)` (grouped by kind, NOT in
+    command-line order), then `ARGS`, then `ENV` -/
+def binds {V : Type} (c : CliVars V) : List (String × V) :=
+  c.arg ++ c.rawfile ++ c.slurpfile ++ c.argjson ++ [("ARGS", c.args), ("ENV", c.env)]
+
+/-- `real_main`: `!input_filename` is pushed after the bindings; `parse_compile` prefixes every
+    name with `$` and hands the names to `Compiler::with_global_vars` -/
+def cliGlobals {V : Type} (c : CliVars V) (fname : V) : List (String × V) :=
+  (binds c ++ [("!input_filename", fname)]).map fun e => ("$" ++ e.1, e.2)
+
+/-- `Vars::new(v)` = `RcList::new().extend(v)`: the LAST element of the vector gets index 0 -/
+def varsNew {V : Type} (l : List V) : List V := l.reverse
+
+/-- the environment a filter runs in under `real_main`: the vector is
+    `[named…, ARGS, ENV, input_filename]`, then `vars.extend(var_vals)` appends the values of the
+    data imports (in `import()` order), `Vars::new` turns it around, binders cons in front -/
+def realMainEnv {V : Type} (c : CliVars V) (fname : V) (locals : List (Bind × V)) (imp : List ((String × Nat) × V)) :
+    List V :=
+  locals.map (·.2) ++ varsNew ((cliGlobals c fname).map (·.2) ++ imp.map (·.2))
+
 /-- the module-level definitions a list of includes brings in, in the textual order of the
     inlined program: (module, index in the module, signature) -/
 def block (mid : Nat) (defs : List Sig) : List (Nat × Nat × Sig) :=
